@@ -533,7 +533,8 @@ def doFinish (d : State M) (op : Op) (t : TxnId) : State M × Out :=
     -- `_transaction = None` precedes the delegation; the lock is released after it returned
     match r.2 with
     | .ok => ({ d with txn := none, commitLock := none, changes := r.1 }, .ok)
-    | e => ({ d with txn := none, changes := r.1 }, e)
+    | .misuse => ({ d with changes := r.1 }, .misuse)          -- outside the model, see the header
+    | e => ({ d with txn := none, changes := r.1 }, e)         -- the demo lock stays held
 
 def doAbort (d : State M) (op : Op) (t : TxnId) : State M × Out :=
   if d.txn ≠ some t then (d, .ok)
@@ -557,5 +558,16 @@ def demoMachine (M : Machine) : Machine :=
   { σ := Demo.State M, step := Demo.step, txn := fun d => d.txn,
     lockFree := fun d => decide (d.commitLock = none) && M.lockFree d.changes,
     curTid := Demo.curTid, usable := fun d => M.usable d.changes }
+
+/-! ### vocabulary of the property for any machine -/
+
+def Machine.run (M : Machine) (s : M.σ) (ops : List Op) : M.σ :=
+  ops.foldl (fun s o => (M.step s o).1) s
+
+/-- the mandated `tpc_abort` of whatever transaction is in progress -/
+def Machine.abortCurrent (M : Machine) (s : M.σ) : M.σ :=
+  match M.txn s with
+  | some t => (M.step s (.abort t)).1
+  | none => s
 
 end ZodbModel.TwoPC
